@@ -51,7 +51,16 @@ def traffic(rng, n, lat, lon, max_km=160):
     return lines
 
 
-def wait_rows(sess, want_len, cap=40.0):
+SENTINELS = (0xFFFFF1, 0xFFFFF2)
+
+
+def sentinel_line(k):
+    return enc.line(enc.long_frame(17, 5, SENTINELS[k], enc.me_ident(4, 0, "ENDFEED")))
+
+
+def wait_rows(sess, want_len, cap=60.0, sentinel=None):
+    """Airplanes table once the feed's sentinel aircraft is on screen (all earlier lines have then
+    been processed, however slow the client is) and the table stopped changing."""
     sess.key("F3")
     end = time.monotonic() + cap
     last = None
@@ -64,7 +73,10 @@ def wait_rows(sess, want_len, cap=40.0):
         snap = repr(rows)
         if snap != last:
             last, since = snap, time.monotonic()
-        elif time.monotonic() - since > 0.9 and rows is not None and (want_len is None or len(rows) >= want_len):
+            continue
+        quiet = time.monotonic() - since
+        seen = sentinel is None or (rows is not None and any(r["icao"] == "%06x" % sentinel for r in rows))
+        if rows is not None and ((seen and quiet > 0.5 and (want_len is None or len(rows) >= want_len)) or quiet > 8.0):
             return rows
     return sess.airplanes_rows()
 
@@ -89,7 +101,7 @@ def rows_equal(col, rows, sim, cls, inp, phase):
 def data_session(col, binpath, vmon, rng, tag, scratch):
     lat, lon = rng.choice([(52.0, 4.0), (0.5, 0.5), (-33.9, 151.2), (64.1, -21.9), (35.0, 179.5)])
     n = rng.choice([1, 3, 8, 20, 30])
-    lines = traffic(rng, n, lat, lon)
+    lines = traffic(rng, n, lat, lon) + [sentinel_line(0)]
     limit = rng.random() < 0.2
     sim = feedsim(vmon, lines, lat, lon, scratch, limit)
     # a second batch, released after the view controls: updated positions of known aircraft + new aircraft
@@ -97,6 +109,7 @@ def data_session(col, binpath, vmon, rng, tag, scratch):
     for l in lines[: len(lines) // 3]:
         lines2.append(l)
     rng.shuffle(lines2)
+    lines2.append(sentinel_line(1))
     sim2 = feedsim(vmon, lines + lines2, lat, lon, scratch, limit)
     plan = [("send", b"".join(lines)), ("mark", "feed_done"), ("wait_for", "batch2"), ("send", b"".join(lines2)), ("mark", "feed2_done"), ("sleep", 90)]
     opts = ["--filter-time", "100000"] + (["--limit-parsing"] if limit else [])
@@ -104,7 +117,7 @@ def data_session(col, binpath, vmon, rng, tag, scratch):
     inp = {"receiver": [lat, lon], "options": opts, "lines": [l.decode() for l in lines], "tag": tag}
     try:
         sess.wait_connected()
-        rows = wait_rows(sess, sim["len"])
+        rows = wait_rows(sess, sim["len"], sentinel=SENTINELS[0])
         col.count("data_sessions")
         col.count("rows_compared", len(sim["rows"]))
         col.cls(f"data|n={n}")
@@ -154,7 +167,7 @@ def data_session(col, binpath, vmon, rng, tag, scratch):
             else:
                 sess.p.pump(0.05)
             sess.p.pump(0.02)
-        rows2 = wait_rows(sess, sim["len"])
+        rows2 = wait_rows(sess, sim["len"], sentinel=SENTINELS[0])
         col.count("view_control_sequences")
         if rows2 is None:
             if not sess.p.alive():
@@ -180,7 +193,7 @@ def data_session(col, binpath, vmon, rng, tag, scratch):
         end = time.monotonic() + 40
         while time.monotonic() < end and not sess.srv.marked("feed2_done"):
             sess.p.pump(0.1)
-        rows3 = wait_rows(sess, sim2["len"])
+        rows3 = wait_rows(sess, sim2["len"], sentinel=SENTINELS[1])
         col.count("rows_compared", len(sim2["rows"]))
         if rows3 is None:
             raise Inconclusive("Airplanes table not on screen after the second batch")
@@ -191,28 +204,41 @@ def data_session(col, binpath, vmon, rng, tag, scratch):
 
 
 def stats_expiry_session(col, binpath, rng, tag, scratch):
-    """Aircraft expire and come back: Total counts every (re-)add, Most the largest simultaneous count."""
+    """Aircraft expire and come back: Total counts every (re-)add, Most the largest simultaneous count.
+    Event driven (title counts), so a slow machine only makes it slower."""
     lat, lon = 52.0, 4.0
     k1, k2 = rng.randint(1, 9), rng.randint(1, 9)
+    FT = 4
     def group(base, k):
         return [enc.line(enc.long_frame(17, 5, base + i, enc.me_ident(4, 0, "S%03d" % i))) for i in range(k)]
     a = group(0x500000, k1)
     overlap = rng.randint(0, min(k1, k2))
     b = group(0x500000, overlap) + group(0x600000, k2 - overlap)
-    plan = [("send", b"".join(a)), ("sleep", 4.5), ("send", b"".join(b)), ("mark", "feed_done"), ("sleep", 1.2)]
-    plan += [("send", b[0])] * 1
-    for _ in range(40):  # keep group b alive
-        plan += [("sleep", 0.5), ("send", b"".join(b))]
-    sess = session.RadarSession(binpath, plan, lat=lat, lon=lon, opts=["--filter-time", "2"], rows=40, cols=150, scratch=scratch)
-    inp = {"scenario": "expiry", "group_a": k1, "group_b": k2, "overlap": overlap, "filter_time": 2, "gap_s": 4.5}
+    plan = [("send", b"".join(a)), ("mark", "a_sent"), ("wait_for", "send_b"), ("send", b"".join(b)), ("mark", "feed_done")]
+    for _ in range(400):  # keep group b alive well inside the filter time
+        plan += [("sleep", 0.25), ("send", b"".join(b))]
+    sess = session.RadarSession(binpath, plan, lat=lat, lon=lon, opts=["--filter-time", str(FT)], rows=40, cols=150, scratch=scratch)
+    inp = {"scenario": "expiry", "group_a": k1, "group_b": k2, "overlap": overlap, "filter_time": FT}
+    def wait_title(n, cap):
+        end = time.monotonic() + cap
+        while time.monotonic() < end:
+            sess.p.pump(0.1)
+            if sess.tab_title_count() == n:
+                return True
+            if not sess.p.alive():
+                return False
+        return False
     try:
         sess.wait_connected()
-        end = time.monotonic() + 40
-        while time.monotonic() < end and not any(e[1] == "mark" for e in sess.srv.log):
-            sess.p.pump(0.1)
-        sess.p.pump(1.0)
+        if not wait_title(k1, 30):
+            raise Inconclusive(f"group A ({k1} aircraft) never fully shown")
+        if not wait_title(0, FT + 25):
+            raise Inconclusive("group A did not expire")
+        sess.srv.release("send_b")
+        if not wait_title(k2, 30):
+            raise Inconclusive(f"group B ({k2} aircraft) never fully shown")
         sess.key("F4")
-        sess.settle()
+        sess.settle(0.3, 5.0)
         txt = sess.p.screen.text()
         tot = most = None
         for l in txt:
@@ -237,8 +263,13 @@ def stats_expiry_session(col, binpath, rng, tag, scratch):
         sess.close()
 
 
+MAP_RECEIVERS = [(52.0, 4.0), (51.5, -0.1), (0.0, 0.0), (-40.0, 179.9), (10.0, -60.0), (60.0, 25.0), (-33.9, 151.2), (35.0, -179.8)]
+
+
 def map_session(col, binpath, rng, tag, scratch):
-    lat, lon = rng.choice([(52.0, 4.0), (10.0, -60.0), (-40.0, 170.0), (60.0, 25.0), (0.0, 0.0)])
+    # receivers are cycled, not drawn: the prime meridian, the equator and the antimeridian are
+    # where a projection seam or a sign slip shows
+    lat, lon = MAP_RECEIVERS[int(tag.split("#")[1]) % len(MAP_RECEIVERS)]
     d = rng.choice([25.0, 30.0, 35.0])
     lines = []
     truth = {}
